@@ -40,6 +40,7 @@ type c15scall struct {
 	goroutine bool
 	sv        int // slog: 0 the logger, 1 its WithAttrs clone, 2 its WithGroup clone
 	tag       int
+	near, far int // stack contexts of this call (c15_ctx.go), 0 = none
 }
 
 type c15sess struct {
@@ -261,11 +262,15 @@ func c15runSession(c *Ctx, ss *c15sess) {
 		}
 		c15last = nil
 		errOut.Reset()
-		c15run(cl.n, cl.w, cl.goroutine, st.fn, h)
+		if cl.near == 0 && cl.far == 0 {
+			c15run(cl.n, cl.w, cl.goroutine, st.fn, h)
+		} else {
+			c15runCtx(cl.near, cl.far, cl.n, cl.w, cl.goroutine, st.fn, h)
+		}
 		us := c15frames(c15last)
 		switch st.kind {
 		case 3:
-			csx = L(I(1), I(st.a), I(cl.slvl), LI(us))
+			csx = L(I(1), I(st.a), I(cl.slvl), c15usSX(us))
 		default:
 			var fe SX
 			switch st.kind {
@@ -283,10 +288,14 @@ func c15runSession(c *Ctx, ss *c15sess) {
 				}
 				fe = L(I(2), I(ctor), I(st.b))
 			}
-			csx = L(I(0), c15chainSX(cl.extra), fe, I(lvl), LI(us))
+			csx = L(I(0), c15chainSX(cl.extra), fe, I(lvl), c15usSX(us))
 		}
 		calls = append(calls, csx)
-		hist = append(hist, st.name)
+		if cl.near != 0 || cl.far != 0 {
+			hist = append(hist, st.name+"["+c15ctxLabel(cl.near, cl.far)+"]")
+		} else {
+			hist = append(hist, st.name)
+		}
 		if len(us) == 0 {
 			c.Viol("C15 harness: no user stack recorded for "+st.name+" (call "+strconv.Itoa(ci)+" of a session)", L(calls...))
 			if restore != nil {
@@ -294,7 +303,10 @@ func c15runSession(c *Ctx, ss *c15sess) {
 			}
 			return
 		}
-		all := logs.TakeAll()
+		if c15logTagged[us[0]] {
+			panic("c15: a call site inside a log.-prefixed function generated")
+		}
+		all := c15userEntries(logs.TakeAll())
 		var obs c15obs
 		obs.entries = len(all)
 		if len(all) >= 1 {
@@ -468,6 +480,34 @@ func c15sessions(c *Ctx, r *RNG) {
 				return cl
 			}
 			ss.calls = []c15scall{mk(0), mk(3), {kind: 2, tag: si % c15nOther}, mk(70)}
+			c15runSession(c, ss)
+		}
+	}
+
+	// 8e. calls nested in stack contexts (c15_ctx.go) between plain calls on the SAME bridge / logger /
+	// handler: a context must neither move the frame of the call made inside it nor leave anything behind
+	infoSite, slogSite := c15siteIdx("Logger.Info"), c15siteIdx("slog.Logger.Warn")
+	for ci := 1; ci < len(c15ctxs); ci++ {
+		for _, pkg := range []bool{false, true} {
+			sites := stdObj
+			if pkg {
+				sites = stdPkg
+			}
+			at := ci%2 == 1
+			ss := &c15sess{chain: callerOpts(0, ci%3 == 0), core: c15debug, hopts: hoptsFor(0, ci%3 == 0),
+				blvl: []int{1, 2, -1, 3}[ci%4], gat: at, class: "sess-ctx"}
+			p, q := sites[ci%len(sites)], sites[(ci+3)%len(sites)]
+			other := 1 + (ci+4)%(len(c15ctxs)-1)
+			ss.calls = []c15scall{
+				{kind: 0, site: p, at: at},
+				{kind: 0, site: p, at: at, near: ci},
+				{kind: 0, site: q, at: at, far: ci, n: ci % 4},
+				{kind: 0, site: sites[0], at: at},
+				{kind: 0, site: infoSite, near: ci},
+				{kind: 1, site: slogSite, slvl: 4, sv: ci % 3, far: ci},
+				{kind: 0, site: q, at: at, near: ci, far: other, n: 2},
+				{kind: 0, site: p, at: at},
+			}
 			c15runSession(c, ss)
 		}
 	}
@@ -664,6 +704,9 @@ func c15randSession(r *RNG) *c15sess {
 			if r.Chance(25) {
 				cl.w = r.Intn(4)
 			}
+			if r.Chance(20) {
+				cl.near, cl.far = r.Intn(len(c15ctxs)), r.Intn(len(c15ctxs))*r.Intn(2)
+			}
 			ss.calls = append(ss.calls, cl)
 			continue
 		}
@@ -689,6 +732,11 @@ func c15randSession(r *RNG) *c15sess {
 		}
 		if r.Chance(6) {
 			cl.n = []int{60, 64, 130}[r.Intn(3)]
+		}
+		if r.Chance(22) {
+			cl.near, cl.far = r.Intn(len(c15ctxs)), r.Intn(len(c15ctxs))*r.Intn(2)
+		} else if r.Chance(8) {
+			cl.far = r.Intn(len(c15ctxs))
 		}
 		ss.calls = append(ss.calls, cl)
 	}
